@@ -61,6 +61,7 @@ type Rtmp2MpegtsRemuxer struct {
 	audioCc         uint8
 	videoCc         uint8
 	timestampFilter Rtmp2MpegtsTimestampFilter
+	timestamp       rtmpTimestampUnwrapper
 
 	// audioCacheFrames: 缓存音频packet数据，注意，可能包含多个音频packet
 	//
@@ -371,7 +372,7 @@ func (s *Rtmp2MpegtsRemuxer) feedVideo(msg base.RtmpMsg) {
 		return
 	}
 
-	dts := uint64(msg.Header.TimestampAbs) * 90
+	dts := s.timestamp.unwrap(msg.Header.TimestampAbs) * 90
 
 	if !s.audioCacheEmpty() && s.audioCacheFirstFramePts+maxAudioCacheDelayByVideo < dts {
 		s.FlushAudio()
@@ -418,7 +419,7 @@ func (s *Rtmp2MpegtsRemuxer) feedAudio(msg base.RtmpMsg) {
 		}
 	}
 
-	pts := uint64(msg.Header.TimestampAbs) * 90
+	pts := s.timestamp.unwrap(msg.Header.TimestampAbs) * 90
 	if msg.AudioCodecId() == base.RtmpSoundFormatAac {
 		if !s.audioCacheEmpty() && s.audioCacheFirstFramePts+maxAudioCacheDelayByAudio < pts {
 			s.FlushAudio()
@@ -502,4 +503,31 @@ func (s *Rtmp2MpegtsRemuxer) onFrame(frame *mpegts.Frame) {
 
 	//nazalog.Debugf("> OnTsPackets. frame=%s, boundary=%v, packets=%d", frame.DebugString(), boundary, len(packets))
 	s.observer.OnTsPackets(packets, frame, boundary)
+}
+
+// ---------------------------------------------------------------------------------------------------------------------
+
+// rtmpTimestampUnwrapper extends the 32-bit rtmp timestamp (milliseconds, rolls over every 49.7 days) to 64 bits,
+// so that the time base subtraction, the audio cache delays and the hls fragment durations keep running across the
+// roll-over instead of seeing a jump back to zero. Audio and video share one instance: they are stamped by the same
+// clock, and one track may pass the roll-over a few messages before the other.
+type rtmpTimestampUnwrapper struct {
+	inited bool
+	last   uint32
+	high   uint64
+}
+
+func (u *rtmpTimestampUnwrapper) unwrap(ts uint32) uint64 {
+	if u.inited {
+		if ts < u.last && u.last-ts > 1<<31 {
+			// rolled over
+			u.high += 1 << 32
+		} else if ts > u.last && ts-u.last > 1<<31 && u.high > 0 {
+			// a straggler from before the roll-over
+			return u.high - 1<<32 + uint64(ts)
+		}
+	}
+	u.inited = true
+	u.last = ts
+	return u.high + uint64(ts)
 }
